@@ -13,7 +13,11 @@ one() {
   echo "| $sid | $chk | ${n:-?} | $fps |" > $TMP/$sid.row
 }
 export -f one; export TMP
-ls -d /verif/seeded/C*-m* | xargs -P ${MATRIX_P:-4} -I{} bash -c 'one {}'
+# MATRIX_FILTER=<extended regex over seed ids>: run only those and merge their rows into the existing table
+ls -d /verif/seeded/C*-m* | grep -E "/(${MATRIX_FILTER:-.*})\$" | xargs -P ${MATRIX_P:-4} -I{} bash -c 'one {}'
+if [ -n "${MATRIX_FILTER:-}" ] && [ -f $OUT ]; then
+  grep '^| C[0-9][0-9]-m' $OUT | while IFS= read -r row; do sid=$(echo "$row" | cut -d'|' -f2 | tr -d ' '); [ -f $TMP/$sid.row ] || echo "$row" > $TMP/$sid.row; done
+fi
 { echo "# Seeded changes vs. checks (quick tier), $(date -u +%F)"; echo; echo "Each row: the seeded change applied in a scratch worktree, the check run against it (tools/tryseed.sh)."; echo; echo "| seed | check | violations reported | first fingerprints |"; echo "|---|---|---|---|"; cat $TMP/*.row | sort; } > $OUT
 rm -rf $TMP
 grep -c '| 0 |' $OUT | sed 's/^/undetected: /'
